@@ -344,6 +344,7 @@ package network
 //@   ensures [frameBool] forall b :: b != base(s.activated) && b != base(s.inActivation) ==> Mem[bool][b] == old(Mem[bool][b])
 //@   loop 1:
 //@     invariant 0 <= i && i <= len(s.reverseAdjacentList[currentNode]) && err == nil
+//@     invariant [startsFromZero] i == 0 ==> s.neuronSignalsBeingProcessed[currentNode] == 0.0
 //@     invariant forall k :: 0 <= k && k < s.totalNeuronCount && old(s.activated[k]) ==> s.activated[k] && s.neuronSignals[k] == old(s.neuronSignals[k])
 //@     invariant forall b :: b != base(s.neuronSignals) && b != base(s.neuronSignalsBeingProcessed) ==> Mem[float64][b] == old(Mem[float64][b])
 //@     invariant forall b :: b != base(s.activated) && b != base(s.inActivation) ==> Mem[bool][b] == old(Mem[bool][b])
